@@ -47,7 +47,7 @@ def alarm_handler(signum, frame):
 def exercise(img, limit):
     """returns list of (call, outcome) ; outcome 'ok' | 'err:<cls>' | 'INTERNAL:<type>: msg' | 'BUDGET'"""
     out = []
-    dev = TraceDevice(img, writable=False, record_reads=False)
+    dev = TraceDevice(img, writable=False, record_reads=False, post_guard=0)     # the device ENDS where the image ends (truncated images read short)
     w = Watch(limit)
     signal.signal(signal.SIGALRM, alarm_handler)
 
@@ -186,6 +186,11 @@ def mutations(rng, img, meta):
     for cut in (0, 10, 35, 36, 61, 62, 89, 90, 511, 512, 513, v.rsvd * v.bps + 3, (v.rsvd + v.fatsz) * v.bps - 1, v.fds * v.bps - 40, v.fds * v.bps + 100, len(img) - 513):
         if 0 <= cut < len(img):
             out.append((f"truncate@{cut}", img[:cut]))
+    # the device ends INSIDE a directory block that is in use: after one slot, in the middle of a slot, after a few slots, at a sector boundary
+    for base in roots:
+        for d in (32, 47, 64, 101, 256, 512, 544):
+            if base + d < len(img):
+                out.append((f"truncate-in-dir@{base}+{d}", img[:base + d]))
     for _ in range(12):
         b = bytearray(img)
         region = rng.choice([(0, 512), (v.rsvd * v.bps, (v.rsvd + v.fatsz) * v.bps), (roots[0], roots[0] + 1024), (0, len(img))])
@@ -203,7 +208,8 @@ def run(ctx):
         muts = mutations(rng, img, meta)
         rng.shuffle(muts)
         if ctx.tier == "quick":
-            muts = muts[:130] if not big else [m for m in muts if m[0].startswith(("dir-clus", "fat-one", "lfn-clus"))][:40]
+            forced = [m for m in muts if m[0].startswith("truncate-in-dir")]      # few and cheap: every quick run has them
+            muts = forced + [m for m in muts if not m[0].startswith("truncate-in-dir")][:130] if not big else [m for m in muts if m[0].startswith(("dir-clus", "fat-one", "lfn-clus"))][:40]
         limit = 400000 + 4 * len(img)       # calls: proportional to the image size (theorem: reads <= clusters x slots per listing)
         for kind, b in muts:
             if ctx.time_left() < 10:
